@@ -186,7 +186,7 @@ func genLiterals(r *core.Run) []litCase {
 		var local []litCase
 		tlcrun.MustHold(r, tlcrun.Options{
 			Module: "JsLiteralGen", Config: fmt.Sprintf("JsLiteralGen.%s%d.cfg", j.family, j.size), Workers: 2,
-			TimeoutSec: r.Pick(600, 1800), XssMB: 64, HeapGB: 4,
+			TimeoutSec: r.Pick(1800, 3600), XssMB: 64, HeapGB: 4,
 			OnCase: func(raw []byte) {
 				var c litCase
 				if err := json.Unmarshal(raw, &c); err != nil {
